@@ -113,15 +113,18 @@ type boot struct {
 }
 
 type session struct {
-	n         int
-	id        string
-	in, out   *client
-	io        *client
-	sentOut   []byte // bytes sent on the output stream
-	plainFrom int
-	closed    bool
-	closing   bool
-	expectOK  bool
+	n            int
+	id           string
+	in, out      *client
+	io           *client
+	sentOut      []byte // bytes sent on the output stream
+	plainFrom    int
+	closed       bool
+	closing      bool
+	readyAtOpen  int
+	readyChecked bool
+	noJudge      bool
+	expectOK     bool
 }
 
 type scriptInfo struct {
